@@ -424,6 +424,23 @@ func c06Chain(n int, prefix, suffix string) string {
 	return sb.String()
 }
 
+// c06ParamChain: a chain of constant named fields that ends in the parameter
+// of an aggregate function (`select 1.0 as a0, a0*a0 as a1, .., quantile(x, an)
+// where .. group by a0, .., an`).
+func c06ParamChain(first, step string, n int, aggr string) string {
+	var sb strings.Builder
+	sb.WriteString("select " + first + " as a0")
+	groups := "a0"
+	for i := 1; i <= n; i++ {
+		prev := fmt.Sprintf("a%d", i-1)
+		fmt.Fprintf(&sb, ", "+step+" as a%d", prev, prev, i)
+		groups += fmt.Sprintf(", a%d", i)
+	}
+	fmt.Fprintf(&sb, ", "+aggr, n)
+	sb.WriteString(" where key != '' group by " + groups)
+	return sb.String()
+}
+
 // TestC06Chains: planning and executing such statements must terminate. The
 // work is linear in the statement (well under a millisecond); the deadline of
 // 20 s per statement is four orders of magnitude above that, and exponential
@@ -444,6 +461,10 @@ func TestC06Chains(t *testing.T) {
 			c06Chain(n, "key, ", "where key != '' order by "+last+" desc limit 2"),
 			c06Chain(n, "count(1) as c, ", "where "+last+" >= 0 | key != '' group by "+groups),
 			c06Chain(n, "count(1) as c, ", "where key != '' group by "+groups+" order by c"),
+			// the constant parameters of quantile and group_concat are
+			// evaluated when the plan is built
+			c06ParamChain("1.0", "%s*%s", n, "quantile(strlen(value), a%d)"),
+			c06ParamChain("','", "substr(%s+%s, 0, 1)", n, "group_concat(value, a%d)"),
 		} {
 			idx++
 			if !lib.Mine(idx) {
